@@ -177,6 +177,9 @@ def draw_lot(g, idx):
                 poly = pr
     if g.random() < 0.3:
         poly = poly[::-1]
+    # the outline may be listed from any of its vertices (for a rectangle the closing edge is then horizontal or vertical in turn)
+    r_ = int(g.integers(0, len(poly)))
+    poly = list(poly[r_:]) + list(poly[:r_])
     s = float(round(g.uniform(5, 25), int(g.integers(0, 3))))
     return [tuple(p) for p in poly], s, kind == 0
 
